@@ -630,7 +630,7 @@ def observe(lines, elements=None, inc=None):
             (tmp / inc['name']).write_text('\n'.join(lines[s:e]) + '\n')
             (tmp / 'main.res').write_text('\n'.join(lines[:s] + ['+' + inc['name']] + lines[e:]) + '\n')
             shx.read_file(tmp / 'main.res')
-            lines = lines[:s] + ['+' + inc['name']] + lines[s:]          # the line list after the splice
+            lines = None
         else:
             shx.read_string('\n'.join(lines) + '\n')
     except Exception as e:
@@ -666,8 +666,13 @@ def _observe(shx, lines, elements):
     o['restraint_errors_empty'] = not getattr(shx, 'restraint_errors', ['unset'])
     objs = []
     starts = []
-    for i, (raw, item) in enumerate(zip(lines, shx._reslist)):
-        if raw.startswith(' ') or raw == '':
+    for i, (raw, item) in enumerate(zip(lines, shx._reslist) if lines is not None else [(None, x) for x in shx._reslist]):
+        if raw is None:
+            # include files: the positions in the line list are the business of the splice, not of this property (blank lines
+            # of the include file may or may not be spliced in) - the instruction objects in their order
+            if isinstance(item, str):
+                continue
+        elif raw.startswith(' ') or raw == '':
             continue
         if isinstance(item, str) and item == '' and raw[:4].upper() not in ('SFAC', 'FVAR', 'SYMM'):
             continue                       # consumed by the continuation loop
